@@ -22,13 +22,15 @@ type Dep struct {
 }
 
 type Task struct {
-	Deps []Dep
-	Late int // -1, or index of the task whose result makes this task appear
+	Deps   []Dep
+	Late   int  // -1, or index of the task whose result makes this task appear
+	InList bool // the task is an element of the list "lst" instead of a named field
 }
 
 type Case struct {
 	Tasks []Task
 	Fail  int   // index of the task that fails, -1 for none
+	Abort bool  // the failing task returns flow.ErrAbort instead of an ordinary error
 	Cycle []int // two task indices made mutually dependent, or nil
 	Picks []int // which of the currently running tasks is released next (mod their number)
 	Burst []bool
@@ -36,33 +38,55 @@ type Case struct {
 
 func name(i int) string { return fmt.Sprintf("t%d", i) }
 
+// ref returns the CUE expression naming task j.
+func ref(c Case, j int) string {
+	if !c.Tasks[j].InList {
+		return fmt.Sprintf("t%d", j)
+	}
+	k := 0
+	for i := 0; i < j; i++ {
+		if c.Tasks[i].InList {
+			k++
+		}
+	}
+	return fmt.Sprintf("lst[%d]", k)
+}
+
 func source(c Case) string {
 	var src strings.Builder
+	var list []string
 	for i, t := range c.Tasks {
 		terms := []string{"0"}
 		for _, d := range t.Deps {
 			switch d.Kind {
 			case "mid":
-				fmt.Fprintf(&src, "mid%d_%d: t%d.out\n", i, d.On, d.On)
+				fmt.Fprintf(&src, "mid%d_%d: %s.out\n", i, d.On, ref(c, d.On))
 				terms = append(terms, fmt.Sprintf("mid%d_%d", i, d.On))
 			case "nested":
-				fmt.Fprintf(&src, "aux: m%d_%d: {v: t%d.out, w: 1}\n", i, d.On, d.On)
+				fmt.Fprintf(&src, "aux: m%d_%d: {v: %s.out, w: 1}\n", i, d.On, ref(c, d.On))
 				terms = append(terms, fmt.Sprintf("aux.m%d_%d.v", i, d.On))
 			case "computed":
-				terms = append(terms, fmt.Sprintf("(t%d.out * 1 + 0)", d.On))
+				terms = append(terms, fmt.Sprintf("(%s.out * 1 + 0)", ref(c, d.On)))
 			default:
-				terms = append(terms, fmt.Sprintf("t%d.out", d.On))
+				terms = append(terms, fmt.Sprintf("%s.out", ref(c, d.On)))
 			}
 		}
 		if c.Cycle != nil && len(c.Cycle) == 2 && i == c.Cycle[0] {
-			terms = append(terms, fmt.Sprintf("t%d.out", c.Cycle[1]))
+			terms = append(terms, fmt.Sprintf("%s.out", ref(c, c.Cycle[1])))
 		}
 		decl := fmt.Sprintf("t%d: {kind: \"task\", idx: %d, in: %s, out: int, outs: [...int]}\n", i, i, strings.Join(terms, " + "))
+		if t.InList {
+			list = append(list, fmt.Sprintf("{kind: \"task\", idx: %d, in: %s, out: int, outs: [...int]}", i, strings.Join(terms, " + ")))
+			continue
+		}
 		if t.Late >= 0 {
 			// the task only comes into existence once the guard task has filled its (initially empty) list
-			decl = fmt.Sprintf("for _ in t%d.outs {\n\t%s}\n", t.Late, decl)
+			decl = fmt.Sprintf("for _ in %s.outs {\n\t%s}\n", ref(c, t.Late), decl)
 		}
 		src.WriteString(decl)
+	}
+	if len(list) > 0 {
+		fmt.Fprintf(&src, "lst: [\n\t%s,\n]\n", strings.Join(list, ",\n\t"))
 	}
 	return src.String()
 }
@@ -143,6 +167,9 @@ func (h *harness) runner(idx int) flow.Runner {
 			h.failed[idx] = true
 			h.log = append(h.log, "fail "+name(idx))
 			h.mu.Unlock()
+			if h.c.Abort {
+				return fmt.Errorf("%s gives up: %w", name(idx), flow.ErrAbort)
+			}
 			return fmt.Errorf("injected failure of %s", name(idx))
 		}
 		h.mu.Lock()
@@ -259,9 +286,12 @@ loop:
 		}
 	case c.Fail >= 0 && h.started[c.Fail] > 0:
 		res.Classes = append(res.Classes, "injected-failure")
-		if runErr == nil {
+		if runErr == nil && !c.Abort { // ErrAbort is documented as "not an error": either outcome of Run is accepted
 			res.Fail = fmt.Sprintf("task %s failed but Run returned nil\n%s", name(c.Fail), src)
 			return
+		}
+		if c.Abort {
+			res.Classes = append(res.Classes, "abort")
 		}
 		for i := 0; i < n; i++ {
 			if anc[i][c.Fail] && h.started[i] > 0 {
@@ -280,7 +310,7 @@ loop:
 				res.Fail = fmt.Sprintf("%s ran %d times in an acyclic workflow without failure\nlog=%v\n%s", name(i), h.started[i], h.log, src)
 				return
 			}
-			out, err := ctl.Value().LookupPath(cue.ParsePath(fmt.Sprintf("t%d.out", i))).Int64()
+			out, err := ctl.Value().LookupPath(cue.ParsePath(ref(c, i) + ".out")).Int64()
 			if err != nil || out != h.expect[i] {
 				res.Fail = fmt.Sprintf("final configuration has %s.out = %v (err %v), want %d\nlog=%v\n%s", name(i), out, err, h.expect[i], h.log, src)
 				return
@@ -310,6 +340,7 @@ loop:
 func gen(t *rapid.T) Case {
 	n := rapid.IntRange(2, 10).Draw(t, "n")
 	c := Case{Fail: -1}
+	listy := rapid.IntRange(0, 2).Draw(t, "listy") == 0
 	for i := 0; i < n; i++ {
 		tk := Task{Late: -1}
 		for j := 0; j < i; j++ {
@@ -317,7 +348,8 @@ func gen(t *rapid.T) Case {
 				tk.Deps = append(tk.Deps, Dep{On: j, Kind: rapid.SampledFrom([]string{"direct", "direct", "mid", "nested", "computed"}).Draw(t, "kind")})
 			}
 		}
-		if i > 0 && rapid.IntRange(0, 6).Draw(t, "late") == 0 {
+		tk.InList = listy && rapid.Bool().Draw(t, "inlist")
+		if !tk.InList && i > 0 && rapid.IntRange(0, 6).Draw(t, "late") == 0 {
 			if l := rapid.IntRange(0, i-1).Draw(t, "lateon"); c.Tasks[l].Late < 0 {
 				tk.Late = l
 			}
@@ -327,6 +359,7 @@ func gen(t *rapid.T) Case {
 	switch rapid.IntRange(0, 9).Draw(t, "mode") {
 	case 0, 1:
 		c.Fail = rapid.IntRange(0, n-1).Draw(t, "fail")
+		c.Abort = rapid.Bool().Draw(t, "abort")
 	case 2:
 		a := rapid.IntRange(0, n-2).Draw(t, "cyca")
 		b := rapid.IntRange(a+1, n-1).Draw(t, "cycb")
